@@ -211,9 +211,20 @@ package machine
 
 // ---- values from strings (json.go, account.go, asset.go): C27, C28 -------------------------------------
 
+//@ declare reMatch(re *regexp.Regexp, s string) bool
+
 //@ assumed func (re *regexp.Regexp) MatchString(s string) (r bool)
 //@   ensures re == accounts.Regexp ==> r == validAddr(s)
 //@   ensures re == assets.Regexp ==> r == validAsset(s)
+//@   ensures r == reMatch(re, s)
+
+//@ assumed func (re *regexp.Regexp) Match(b []byte) (r bool)
+//@   ensures r == reMatch(re, bytestr(b))
+
+//@ assumed func (re *regexp.Regexp) FindAllStringSubmatch(s string, n int) (r [][]string)
+//@   ensures (reMatch(re, s) && n != 0) ==> len(r) >= 1
+//@   ensures forall i int :: {r[i]} 0 <= i && i < len(r) ==> len(r[i]) == 1 + nsub(re)
+//@   note regexp documentation: one entry per match, each of 1 + NumSubexp strings; at least one entry when the expression matches and n != 0
 
 //@ func ValidateAccountAddress(acc AccountAddress) (err error)
 //@   property C27 C28
@@ -235,6 +246,8 @@ package machine
 //@ declare groups(pattern string) int
 //@ axiom groups("^([0-9]+)(?:[.]([0-9]+))?[%]$") == 2
 //@ axiom groups("^([0-9]+)\\s?[/]\\s?([0-9]+)$") == 2
+//@ axiom groups("balance\\[(.*)]") == 1
+//@ axiom groups("metadata\\[(.+)]") == 1
 
 //@ assumed func regexp.MustCompile(str string) (r *regexp.Regexp)
 //@   ensures r != nil && nsub(r) == groups(str)
